@@ -48,6 +48,12 @@ pub fn tref(s: &S) -> TableRef {
                 .collect();
             TableRef::ValuesList(rows, id(&l[0]).into_iden())
         }
+        "tfn" => {
+            // (tfn <func name> alias args...): a function call as a table
+            let name = l[0].atom();
+            let args: Vec<SimpleExpr> = l[2..].iter().map(expr).collect();
+            TableRef::FunctionCall(exprs::func_call(name, args), id(&l[1]).into_iden())
+        }
         _ => panic!("tref {}", s.head()),
     }
 }
@@ -244,6 +250,10 @@ pub fn select(s: &S) -> SelectStatement {
                             .map(|r| ValueTuple::Many(r.args().iter().map(value).collect()))
                             .collect();
                         q.from_values(rows, id(&t.args()[0]));
+                    }
+                    "tfn" if alt => {
+                        let args: Vec<SimpleExpr> = t.args()[2..].iter().map(expr).collect();
+                        q.from_function(exprs::func_call(t.args()[0].atom(), args), id(&t.args()[1]));
                     }
                     "ta" if alt => {
                         // from_as(table without alias, alias)
